@@ -90,6 +90,12 @@ structure HistTx where
   toAsset : String
   toAmount : Int
   outputs : String          -- canonical rendering "addr:amount,…" ("" when empty string in DB)
+  /-- history variables (never read by the model, not dumped): the structured form of what the
+      text columns above hold for transfers and conversions — source and destination asset as
+      tickers, and the output list — so that theorems can replay the history. -/
+  fromT : Ticker := 0
+  toT : Ticker := 0
+  outs : List (Addr × Nat) := []
   deriving Repr
 
 structure HistLookup where
